@@ -23,6 +23,7 @@ def run(ctx, sess):
     ctx.rule('C03.e', 'pair commit in pointer repair: a chunk becomes the chunk whose link is cut only after every read of its INDEX+SUMMARY pair succeeded (an index whose summary is missing is never accepted as last valid)')
     ctx.rule('C03.f', 'repair never follows a missing summary level: whenever an upper-level summary is built from level k, the buffers of level k exist on that path (allocated or already dereferenced for the current value of the level variable)')
     ctx.rule('C03.c', 'chunk then link: every data chunk is linked only after it was completely written')
+    ctx.rule('C03.g', 'a track head never points at a chunk that is not in the file: a head table entry changes once, from zero to the offset of a chunk written before the store (a stop between the two leaves the head at zero, not dangling)')
     ctx.rule('C03.d', 'truncation is reachable only from the repair branch of jls_rd_open')
     ra(ctx, P)
     seq = rb(ctx, P)
@@ -30,6 +31,9 @@ def run(ctx, sess):
     rd(ctx, P)
     re_(ctx, P)
     rf_(ctx, P)
+    from .c14 import head_table_rule, WRITER_ROOT_PREFIXES
+    roots = sorted(f.name for f in P.all_functions() if f.api and f.name.startswith(WRITER_ROOT_PREFIXES))
+    head_table_rule(ctx, P, P.reachable_from(roots), 'C03.g')
 
 
 def ra(ctx, P):
